@@ -252,3 +252,31 @@ func Harness_C17_q_inline_list_fragment_boundaries() {
 	}
 	verif.Reach("end")
 }
+
+// One well-formed item with an arbitrary tag and a value of ANY of the listed lengths
+// (shorter and longer than every fixed-width field kind, up to a full fragment), optionally
+// followed by a second short item: decoding into the struct with every field kind returns a
+// value or an error, never a panic.
+func Harness_C17_q_unmarshal_item_of_any_length() {
+	lens := []int{0, 1, 2, 3, 4, 5, 7, 8, 9, 16, 17, 255}
+	tags := []byte{1, 2, 3, 4, 5, 6, 7, 8, 9, 10, 11, 12, 13, 14, 200} // every field of ssAll, and an unknown one
+	tag := tags[verif.Choice("tag", len(tags))]
+	if tag >= 12 && tag <= 14 {
+		lens = []int{0, 1, 2, 3, 5} // nested struct / list fields re-parse the value as TLV8: short values only
+	}
+	n := lens[verif.Choice("len", len(lens))]
+	raw := append([]byte{tag, byte(n)}, verif.Bytes("value", n)...)
+	switch verif.Choice("second-item", 3) {
+	case 1: // the same tag again (a continuation for a full fragment, a repeated field otherwise)
+		raw = append(raw, tag, 1, verif.U8("v2"))
+	case 2:
+		raw = append(raw, 200, 1, verif.U8("v2"))
+	}
+	var back ssAll
+	p := verif.Panics(func() { Unmarshal(append([]byte{}, raw...), &back) })
+	verif.Assert(!p, "nopanic-unmarshal-arbitrary")
+	var back2 ssInline
+	p2 := verif.Panics(func() { Unmarshal(append([]byte{}, raw...), &back2) })
+	verif.Assert(!p2, "nopanic-unmarshal-arbitrary-inline")
+	verif.Reach("end")
+}
